@@ -1,6 +1,7 @@
 package main
 
 import (
+	"go/types"
 	"fmt"
 	"strings"
 
@@ -147,7 +148,13 @@ func runC04(r *Run) {
 					if !(namedName(y.Type()) == "Address") {
 						return false
 					}
-					return backSlice(y).Has(hp.Args)
+					ys := backSlice(y)
+					// the compared address is the one decoded from calldata itself (conversions only): an address looked
+					// up in chain state under the decoded one (withdraw address, operator, ...) is somebody else's
+					if sliceHasKeeperCall(ys) {
+						return false
+					}
+					return ys.Has(hp.Args)
 				})
 				del := edgeSet(eq)
 				for i, s := range sites {
@@ -284,6 +291,44 @@ func runC04(r *Run) {
 		})
 	}
 	r.Floor("R4", "grant writes reachable from authorization handlers", nGW, 6)
+
+	// ---------- R8 ----------
+	r.Rule("R8", "OWN/SHAPE.limit-stays-limited: precompile code changes the limit of an existing staking grant only through `MaxTokens.Amount = MaxTokens.Amount.Sub(coin.Amount)` (decreaseAllowance) and `.Add(coin.Amount)` (increaseAllowance); it never stores the MaxTokens pointer itself — a nil MaxTokens means an unlimited grant, so replacing the pointer can turn a used-up limit into no limit")
+	nAmt := 0
+	for _, fn := range P.Funcs {
+		if !strings.Contains(fnPkgPath(fn), "/precompiles/") || isTestSupport(P, fn) || fn.Synthetic != "" {
+			continue
+		}
+		eachInstr(fn, func(in ssa.Instruction) {
+			st, ok := in.(*ssa.Store)
+			if !ok {
+				return
+			}
+			sn, f, ok := fieldOfAddr(st.Addr)
+			if !ok {
+				return
+			}
+			if sn == "StakeAuthorization" && f == "MaxTokens" {
+				r.Bad("R8", fnID(fn)+"#stores-MaxTokens-pointer", P.Pos(instrPos(in)), "precompile code replaces the MaxTokens pointer of a staking grant: a nil (or fresh) pointer changes the kind of the limit — nil is 'unlimited' — instead of adjusting the remaining amount")
+				return
+			}
+			// MaxTokens.Amount stores: &(*(&authz.MaxTokens)).Amount
+			if sn == "Coin" && f == "Amount" {
+				if fa, ok := st.Addr.(*ssa.FieldAddr); ok && isFieldLoad(fa.X, "StakeAuthorization", "MaxTokens") {
+					nAmt++
+					c, isC := stripValue(st.Val).(*ssa.Call)
+					want := map[string]string{"decreaseAllowance": "Sub", "increaseAllowance": "Add"}[fn.Name()]
+					okShape := isC && want != "" && callInfo(c).Name == want
+					if okShape {
+						a := c.Call.Args
+						okShape = len(a) == 2 && backSlice(a[0]).HasField("StakeAuthorization", "MaxTokens") && backSlice(a[1]).HasParam("coin") && !backSlice(a[1]).HasField("StakeAuthorization", "MaxTokens")
+					}
+					r.Check(okShape, "R8", fnID(fn)+"#limit-adjusted", P.Pos(instrPos(in)), "limit := old limit "+want+" coin.Amount", "the remaining limit of a staking grant is not adjusted as old limit ± coin.Amount (or is written from a function other than decrease/increaseAllowance)")
+				}
+			}
+		})
+	}
+	r.Floor("R8", "MaxTokens.Amount adjustments", nAmt, 2)
 }
 
 // passesParam: the call passes parameter p (unchanged) as one of its arguments.
@@ -353,4 +398,41 @@ func acceptEvent(memo map[*ssa.Function]bool, depth int) func(ssa.Instruction) b
 		return ok
 	}
 	return ev(depth)
+}
+
+// sliceHasKeeperCall: the slice contains the result of a call on a keeper (struct named *Keeper or a
+// keeper interface) — i.e. the value was looked up in chain state.
+func sliceHasKeeperCall(s *Slice) bool {
+	return s.Any(func(v ssa.Value) bool {
+		c, ok := v.(*ssa.Call)
+		if !ok {
+			return false
+		}
+		ci := callInfo(c)
+		if !(strings.HasSuffix(ci.Recv, "Keeper") || ci.Recv == "Querier" || ci.Recv == "QueryServer") {
+			return false
+		}
+		// only lookups that can yield an account: address-typed or raw-bytes results
+		isAddrT := func(t types.Type) bool {
+			switch namedName(t) {
+			case "AccAddress", "ValAddress", "ConsAddress", "Address":
+				return true
+			}
+			if sl, ok := t.Underlying().(*types.Slice); ok {
+				if b, ok := sl.Elem().Underlying().(*types.Basic); ok && b.Kind() == types.Byte {
+					return true
+				}
+			}
+			return false
+		}
+		if tup, ok := c.Type().(*types.Tuple); ok {
+			for i := 0; i < tup.Len(); i++ {
+				if isAddrT(tup.At(i).Type()) {
+					return true
+				}
+			}
+			return false
+		}
+		return isAddrT(c.Type())
+	})
 }
